@@ -201,3 +201,6 @@ def run(ctx, rep):
     c13_dir.run(ctx, rep)
     c13_nonempty.run(ctx, rep)
     c13_emitall.run(ctx, rep)
+    # every given file is one entry of the project's file table: its key must tell distinct paths apart and order them the same way in every run
+    from rules.c06 import rule_types
+    rule_types(ctx, rep, rid="R-C13-fileid")
